@@ -59,7 +59,7 @@ def P(obj, path=()):
 
 
 def is_int(v):
-    return v[0] in ('c', 's', 'r', 'l', 'top', 'xk', 'ox', 'shr', 'byte')
+    return v[0] in ('c', 's', 'r', 'l', 'top', 'xk', 'ox', 'shr', 'byte', 'bf', 'tl')
 
 
 def pure_byte_sym(v, symr):
@@ -114,8 +114,10 @@ def rng(v, symr, t=None):
         return (min(v[1]), max(v[1]))
     if k == 'r':
         return (v[1], v[2])
-    if k in ('xk', 'ox', 'byte'):
+    if k in ('xk', 'ox', 'byte', 'tl'):
         return (0, 255)
+    if k == 'bf':
+        return (0, (1 << v[3]) - 1)
     if k == 'shr':
         r = rng(v[1], symr)
         return None if r is None else (r[0] >> v[2], r[1] >> v[2])
@@ -152,6 +154,10 @@ def fit(v, t, symr):
     if k in ('xk', 'ox', 'byte'):
         tr = type_range(t)
         return v if tr[0] <= 0 and tr[1] >= 255 else R(max(tr[0], 0), min(tr[1], 255))
+    if k in ('bf', 'tl'):
+        tr = type_range(t)
+        r_ = rng(v, symr) or (0, 255)
+        return v if tr[0] <= r_[0] and r_[1] <= tr[1] else TOP
     if k == 'shr':
         tr = type_range(t)
         r = rng(v, symr)
@@ -185,7 +191,7 @@ def join(a, b, symr=None):
     symr = symr or {}
     if a[0] == 'uninit' or b[0] == 'uninit':
         return TOP
-    if a[0] in ('xk', 'ox', 'shr', 'byte') or b[0] in ('xk', 'ox', 'shr', 'byte'):
+    if a[0] in ('xk', 'ox', 'shr', 'byte', 'bf', 'tl') or b[0] in ('xk', 'ox', 'shr', 'byte', 'bf', 'tl'):
         if is_int(a) and is_int(b) and a != TOP and b != TOP:
             ra, rb = rng(a, symr), rng(b, symr)
             if ra and rb:
@@ -285,6 +291,28 @@ def binop(op, a, b, symr, t=None):
             return a
         if b[0] == 'ox' and a == ('c', 0):
             return b
+    if op == '&' and b[0] == 'c' and b[1] > 0 and (b[1] & (b[1] + 1)) == 0 and a[0] in ('shr', 'l') and b[1] != 0xff:
+        # bit field of an unwrapped non-negative linear value: (L >> s) & (2^w - 1)
+        base, sh = (a[1], a[2]) if a[0] == 'shr' else (a, 0)
+        rb_ = rng(base, symr)
+        if rb_ is not None and rb_[0] >= 0 and rb_[1] < (1 << 64):
+            w = b[1].bit_length()
+            if rb_[1] >> sh <= b[1]:
+                return a
+            if sh == 0:
+                pa_ = lin_parts(base)
+                k_ = b[1] + 1
+                lo_part = L(pa_[0] % k_, {s_: c_ for s_, c_ in pa_[1].items() if c_ % k_ != 0})
+                rl_ = rng(lo_part, symr)
+                if rl_ is not None and 0 <= rl_[0] and rl_[1] < k_:
+                    return lo_part
+            return ('bf', base, sh, w)
+    if a[0] == 'bf' or b[0] == 'bf':
+        ra_, rb_ = rng(a, symr), rng(b, symr)
+        if ra_ is None or rb_ is None:
+            return TOP
+        a = R(*ra_) if a[0] == 'bf' else a
+        b = R(*rb_) if b[0] == 'bf' else b
     if a[0] in ('shr', 'byte') or b[0] in ('shr', 'byte'):
         if op == '&' and b == ('c', 0xff) and a[0] == 'shr' and a[2] % 8 == 0:
             return ('byte', a[1], a[2] // 8)
@@ -410,14 +438,14 @@ def compare(op, a, b, symr, t=None):
         return compare_ptr(op, a, b)
     if not is_int(a) or not is_int(b):
         return None
-    if a[0] in ('shr', 'byte') or b[0] in ('shr', 'byte'):
+    if a[0] in ('shr', 'byte', 'bf') or b[0] in ('shr', 'byte', 'bf'):
         if a == b:
             return op in ('==', '<=', '>=')
         ra_, rb_ = rng(a, symr), rng(b, symr)
         if ra_ is None or rb_ is None:
             return None
-        a = R(*ra_) if a[0] in ('shr', 'byte') else a
-        b = R(*rb_) if b[0] in ('shr', 'byte') else b
+        a = R(*ra_) if a[0] in ('shr', 'byte', 'bf') else a
+        b = R(*rb_) if b[0] in ('shr', 'byte', 'bf') else b
     if a[0] in ('xk', 'ox') or b[0] in ('xk', 'ox'):
         if a == b and op in ('==', '<=', '>='):
             return True
@@ -505,6 +533,8 @@ def show(v):
         s = ' + '.join(('%d*%s' % (c, n) if c != 1 else n) for n, c in v[2])
         return s + (' + %d' % v[1] if v[1] else '')
     if k == 'p': return '&%s%s' % (v[1], ''.join('[%s]' % (show(x) if isinstance(x, tuple) else x) for x in v[2]))
+    if k == 'bf': return 'bits[%d..%d)(%s)' % (v[2], v[2] + v[3], show(v[1]))
+    if k == 'tl': return '%s[%s]' % (v[1], show(v[2]))
     if k == 'shr': return '(%s>>%d)' % (show(v[1]), v[2])
     if k == 'byte': return 'byte%d(%s)' % (v[2], show(v[1]))
     if k == 'xk': return '(%s^0x%02x)' % (v[1], v[2])
